@@ -146,6 +146,9 @@ func (e *Exec) model() map[string]string {
 	}
 	vals := e.solver.GetValues(ts)
 	m := map[string]string{}
+	if e.lastErr != "" {
+		m["_last_stub_error"] = "s:" + e.lastErr
+	}
 	defer e.concretizeBlobs(m)
 	for i, in := range e.inputs {
 		v := vals[i]
@@ -173,10 +176,23 @@ func (e *Exec) modelFor(extra *Term) (string, map[string]string) {
 	e.solver.Assert(extra)
 	r := e.solver.Check()
 	if r == "sat" {
-		if len(e.nice) > 0 {
+		nice := append([]*Term(nil), e.nice...)
+		// prefer models in which document keys are not the same abstract element as a body /
+		// xattr value (they are concretised differently)
+		for _, a := range e.inputs {
+			if a.T.S.K != KBlob || !(strings.HasSuffix(a.Name, ".key") || strings.HasPrefix(a.Name, "in_key")) {
+				continue
+			}
+			for _, b := range e.inputs {
+				if b.T.S.K == KBlob && !(strings.HasSuffix(b.Name, ".key") || strings.HasPrefix(b.Name, "in_key")) {
+					nice = append(nice, tNe(a.T, b.T))
+				}
+			}
+		}
+		if len(nice) > 0 {
 			// prefer a replay-friendly model (does not affect the verdict)
 			e.solver.Push()
-			for _, n := range e.nice {
+			for _, n := range nice {
 				e.solver.Assert(n)
 			}
 			if e.solver.Check() == "sat" {
